@@ -70,7 +70,8 @@ def matrices(draw, n, m, kind="int", distinct=False):
 
 def shapes(tier, lo=1):
     hi = 6 if tier == "quick" else 10
-    dim = st.one_of(st.integers(lo, hi), st.integers(lo, 3), st.just(1))
+    dim = st.one_of(st.integers(lo, hi), st.integers(lo, hi),
+                    st.integers(max(lo, 2), 4), st.integers(lo, max(lo, 2)))
     return st.tuples(dim, dim)
 
 
@@ -183,8 +184,8 @@ def simple_md(draw, ids, distinct=False):
 # construction forms / layout recipes
 
 FORMS = ["dense", "dense", "lists", "triples", "dict", "csr", "csc", "coo",
-         "lil", "dok", "csr_unsorted", "csr_zeros", "csc_zeros",
-         "coo_zeros", "list_arrays"]
+         "lil", "dok", "csr_unsorted", "csr_unsorted", "csr_unsorted",
+         "csr_zeros", "csc_zeros", "coo_zeros", "list_arrays"]
 
 
 def encode(rows, form, zeros_mask=None):
